@@ -840,7 +840,9 @@ fn main() {
                     th_chaos_managed(&args, &mut rep, prop, sc(150.0, 3000.0), false);
                 }
                 if args.engine_enabled("th_race") && matches!(prop, "C01" | "C02" | "C06" | "C07" | "C09" | "C11") {
-                    th_race(&args, &mut rep, prop, sc(300.0, 12_000.0), false, prop == "C06");
+                    // close() racing a returning object is a window of a few instructions: C06 gets three times the rounds
+                    let n = if prop == "C06" { sc(900.0, 24_000.0) } else { sc(300.0, 12_000.0) };
+                    th_race(&args, &mut rep, prop, n, false, prop == "C06");
                 }
                 if args.engine_enabled("th_hammer") {
                     th_chaos_managed(&args, &mut rep, prop, sc(250.0, 6000.0), true);
